@@ -19,7 +19,8 @@ RULE = ('real returns (answer-on-demand scenarios, requested form sets 1040 / 10
         'for real returns, hash of program for generated ones')
 ASSUMPTIONS = ['the closure evaluator takes line objects from the solver\'s own form instances']
 KINDS = ['full', 'full', 'full', 'delete', 'gates']
-FORMSETS = [['1040'], ['1040'], ['1040', 'nc_d-400'], ['1040', 'nc_d-400'], ['nc_d-400'], ['1040_sb'], ['1040_s1'], ['1040_s3'], ['8959']]
+FORMSETS = [['1040'], ['1040'], ['1040', 'nc_d-400'], ['1040', 'nc_d-400'], ['nc_d-400'], ['1040_sb'], ['1040_s1'], ['1040_s3'], ['8959'],
+            ['w-2:0', 'w-2:1'], ['1040', '1099-int:0', '1099-int:1'], ['1098:1', '1098:0', '1040']]
 
 
 def input_only_check(ctx, r, v):
@@ -69,6 +70,43 @@ def cli_main_check(ctx, v, r):
         ctx.violation('cli:solution-sections', f'{v["year"]} requested {v["forms"]} through the command line: sections not demanded {extra[:4]}, sections missing {missing[:4]}', case)
 
 
+def cli_prompt_check(ctx, v, r, moved):
+    """the same return with `moved` inputs typed at the real command-line prompt
+    (`habutax solve --prompt-missing`): the written solution must hold every
+    section and line of the direct solve (same supplied values)"""
+    import re
+    from hx import cli, solve
+    if r.exc is not None or r.solution is None or v['prompt'] is not None or not r.verdict or not moved:
+        return
+    answers = {k_: v['inputs'][k_] for k_ in moved}
+    file_inputs = {k_: t for k_, t in v['inputs'].items() if k_ not in answers}
+
+    def fn(prompt_text, idx):
+        m = re.search(r'----\[ (\S+) \]----', prompt_text)
+        if m is None or m.group(1) not in answers:
+            return cli.Script.INT
+        return answers[m.group(1)]
+    with cli.scratch() as d:
+        o = cli.solve(d, v['year'], v['forms'], input_text=solve.config_to_text(solve.config_from_dict(file_inputs)),
+                      prompt_missing=True, writeback=False, solution=True, script=cli.FnScript(fn))
+    ctx.case()
+    ctx.count('cli_prompt_runs')
+    case = {'variant': v, 'cli_prompt': sorted(moved)}
+    if o.exc is not None or not o.solution_text:
+        ctx.violation('cli-prompt:raises', f'habutax solve --prompt-missing raised {o.exc!r} where the direct solve succeeded', case)
+        return
+    cp = solve.solution_from_text(o.solution_text)
+    got = {sec: set(cp[sec]) for sec in cp.sections() if sec != 'habutax'}
+    want = {sec: set(dd) for sec, dd in r.solution.items()}
+    if got != want:
+        missing = sorted(f'{sec}.{l}' for sec in want for l in want[sec] - got.get(sec, set()))
+        extra = sorted(f'{sec}.{l}' for sec in got for l in got[sec] - want.get(sec, set()))
+        said = 'Successfully solved!' in o.stdout
+        ctx.violation('cli-prompt:solution-incomplete' if missing else 'cli-prompt:solution-extra',
+                      f'{v["year"]} {v["forms"]} with {len(moved)} inputs typed at the prompt (solved={said}): lines missing from the solution {missing[:6]} '
+                      f'({len(missing)}), lines not demanded {extra[:4]}', case)
+
+
 def shard_real(ctx, k, payload):
     n, seed = payload
 
@@ -86,6 +124,11 @@ def shard_real(ctx, k, payload):
         input_only_check(ctx, r, v)
         if data.draw(st.integers(0, 4)) == 0:
             cli_main_check(ctx, v, r)
+        if data.draw(st.integers(0, 5)) == 0 and r.exc is None and r.verdict and v['prompt'] is None:
+            share = data.draw(st.sampled_from([0.05, 0.3, 1.0]))
+            heavy = [k_ for k_ in ('1040.filing_status', '1040.number_dependents') if k_ in v['inputs']]
+            moved = sorted({k_ for k_ in sorted(v['inputs']) if data.draw(st.floats(0, 1)) < share} | set(heavy[:data.draw(st.integers(0, 2))]))
+            cli_prompt_check(ctx, v, r, moved)
         if r.exc is None and r.verdict:
             fm = r.solver._field_map
             optional_absent = [n_ for n_ in fm if n_ not in r.values]
@@ -118,3 +161,5 @@ def replay(ctx, case):
     input_only_check(ctx, r, v)
     if case.get('cli'):
         cli_main_check(ctx, v, r)
+    if case.get('cli_prompt'):
+        cli_prompt_check(ctx, v, r, case['cli_prompt'])
